@@ -208,4 +208,28 @@ theorem C13_scan_catalog_absent (k r : Nat) (exc : String) (seed : Val) (rd : Bo
       · simp [h] at hb
     | _ => simp at hb
 
+/-- `filter | ignore`: every item on which the predicate raises is as if absent, all of them at once -/
+theorem C13_filter_all_absent {α γ} (p : α → Except Err γ) (t : γ → Bool) (xs : List α) :
+    (compLocal (filterOp p t) ignoreOp).outL xs =
+      (compLocal (filterOp p t) ignoreOp).outL (xs.filter (fun x => match p x with | .ok _ => true | .error _ => false)) := by
+  suffices h : ∀ pre : List α, (compLocal (filterOp p t) ignoreOp).outL (pre ++ xs) =
+      (compLocal (filterOp p t) ignoreOp).outL (pre ++ xs.filter (fun x => match p x with | .ok _ => true | .error _ => false)) by
+    simpa using h []
+  induction xs with
+  | nil => intro pre; rfl
+  | cons x xs ih =>
+    intro pre
+    cases hb : p x with
+    | ok v =>
+      have := ih (pre ++ [x])
+      simp only [List.append_assoc, List.singleton_append] at this
+      simp only [List.filter_cons, hb, if_true]
+      exact this
+    | error e =>
+      rw [C13_filter_absent p t pre xs x e hb]
+      simp only [List.filter_cons, hb]
+      exact ih pre
+
+example : (compLocal (filterOp (fun n : Nat => if n % 3 = 0 then (Except.error "ValueError" : Except Err Nat) else .ok n) (fun n => n % 2 == 1)) ignoreOp).outL [3, 1, 6, 2, 5, 9]
+    = [.item 1, .item 5] := by decide
 end Rx
